@@ -101,6 +101,9 @@ func New(id, level string) *Run {
 			r.Seed = v
 		}
 	}
+	if os.Getenv("VERIF_NO_EVIDENCE") != "" {
+		r.NoWrite = true
+	}
 	r.loadKnown()
 	return r
 }
